@@ -572,14 +572,7 @@ func c06otherKinds() []c06kind {
 func c06nameInfo(e *c06name) os.FileInfo { return c06attrsInfo(e.form, &e.attrs) }
 
 func c06attrsInfo(form byte, a *c06attrs) os.FileInfo {
-	var mode os.FileMode
-	switch a.perm &^ 0o7777 {
-	case 0o040000:
-		mode = os.ModeDir
-	case 0o120000:
-		mode = os.ModeSymlink
-	}
-	mode |= os.FileMode(a.perm & 0o777)
+	mode := c06osMode(a.perm)
 	fi, back := c06fileInfo(form, "n", int64(a.size), mode, int64(a.mtime), a.uid, a.gid, a.ext)
 	if fmt.Sprint(back) != fmt.Sprint(*a) {
 		panic(fmt.Sprintf("c06attrsInfo: form %c cannot carry %v (gives %v)", form, *a, back))
